@@ -256,6 +256,17 @@ Fixpoint pl_compile (d : db) (a : ast) : option pstate :=
   | Ungroup c => match pl_compile d c with Some st => Some (with_part st []) | None => None end
   | Summarize c defs => match pl_compile d c with Some st => Some (pl_summarize st defs) | None => None end
   | Alias c None => pl_compile d c
+  | Alias c (Some m) =>
+      (* alias(): the columns get new identities; the frame is untouched (the code re-numbers all identities
+         when the tree is cloned for export; the model renames the keys of name_in_df) *)
+      match pl_compile d c with
+      | Some st =>
+          Some {| p_rows := p_rows st;
+                  p_ns := map (fun un => (remap_uid m (fst un), snd un)) (p_ns st);
+                  p_select := map (remap_uid m) (p_select st); p_part := map (remap_uid m) (p_part st);
+                  p_ctr := p_ctr st; p_keys := p_keys st |}
+      | None => None
+      end
   | Union l r distinct =>
       match pl_compile d l, pl_compile d r with
       | Some sl, Some sr => Some (pl_union sl sr distinct)
@@ -304,6 +315,14 @@ Fixpoint pflat_ok (d : db) (a : ast) : bool :=
   | Source _ cols => nodup_u (map snd cols) && nodup_s (map fst cols)
   | Select c us =>
       pflat_ok d c && match pl_compile d c with Some st => forallb (fun u => mem_u u (p_select st)) us | None => false end
+  | Alias c (Some m) =>
+      pflat_ok d c
+      && match pl_compile d c with
+         | Some st =>
+             let U := ast_uids c ++ dom (p_ns st) in
+             forallb (fun a => forallb (fun b => implb (N.eqb (remap_uid m a) (remap_uid m b)) (N.eqb a b)) U) U
+         | None => false
+         end
   | Ungroup c | Alias c None | SliceHead c _ _ => pflat_ok d c
   | GroupBy c us _ =>
       pflat_ok d c && match pl_compile d c with Some st => forallb (fun u => mem_u u (p_select st)) us | None => false end
